@@ -160,6 +160,12 @@ impl Check for VotesCheck {
     fn components(&self) -> serde_json::Value {
         serde_json::json!({"real": ["stellar_governance::votes::*", "stellar_tokens::fungible::votes::FungibleVotes", "fungible Base"], "stub": ["Wallet"]})
     }
+    fn clock_step(&self, n: u32) -> Option<Step> {
+        Some(Step::Advance { n })
+    }
+    fn clock_budget(&self) -> u64 {
+        1200000
+    }
     fn probes(&self, _prop: &str) -> std::vec::Vec<&'static str> {
         vec!["probe.same_ledger_update", "probe.sweep_over_more_than_5_checkpoint_ledgers"]
     }
@@ -205,7 +211,7 @@ impl Check for VotesCheck {
                     let to = if rng.chance(20) { who } else { rng.below(n) as usize };
                     Step::Delegate { who, to, signed: !rng.chance(8) }
                 }
-                _ => Step::Advance { n: if rng.chance(same_ledger_bias) { rng.below(2) as u32 } else if rng.chance(10) { 1000 + rng.below(1_000_000) as u32 } else { 1 + rng.below(5) as u32 } },
+                _ => Step::Advance { n: if rng.chance(same_ledger_bias) { rng.below(2) as u32 } else if rng.chance(10) && m.now < cfg.start_ledger + 1_000_000 { 1000 + rng.below(300_000) as u32 } else { 1 + rng.below(5) as u32 } },
             };
             m.apply(&s);
             steps.push(s);
